@@ -129,4 +129,34 @@ $(S)/bundled.so: $(LIBSRC_NOSSL) $(B)/include/zck.h
 $(A)/C18: $(A)/C18.o $(S)/ossl.so $(S)/bundled.so
 	$(CXX) $(SAN) $(A)/C18.o -ldl $(LDLIBS) -o $@
 
+# ---------------------------------------------------------------- coverage flavour (selftest/coverage.py: which library lines do the checks reach?)
+# continuous counter mode (%c in LLVM_PROFILE_FILE) keeps counts of forked workers that _exit or die
+V       := $(B)/cov
+VOBJ    := $(patsubst $(REPO)/src/lib/%.c,$(V)/lib/%.o,$(LIBSRC))
+VCOV    := -fprofile-instr-generate -fcoverage-mapping -mllvm -runtime-counter-relocation
+VCFLAGS := -O0 -g $(VCOV) $(DEFS) $(INC)
+VCXXFLAGS := -std=gnu++17 -O1 -g $(DEFS) $(INC) -I. -Wno-deprecated-declarations
+$(V)/lib/%.o: $(REPO)/src/lib/%.c $(B)/include/zck.h
+	@mkdir -p $(dir $@)
+	$(CC) $(VCFLAGS) -c $< -o $@
+$(V)/libzck.a: $(VOBJ)
+	rm -f $@; ar rcs $@ $^
+$(V)/%.o: props/%.cpp $(HDRS) $(B)/include/zck.h
+	@mkdir -p $(dir $@)
+	$(CXX) $(VCXXFLAGS) -c $< -o $@
+$(V)/iofault.o: lib/iofault.c
+	@mkdir -p $(dir $@)
+	$(CC) -O1 -g -c $< -o $@
+$(V)/C12: $(V)/C12.o $(V)/iofault.o $(V)/libzck.a
+	$(CXX) $(VCOV) $(V)/C12.o $(V)/iofault.o $(V)/libzck.a $(LDLIBS) $(WRAP) -o $@
+$(V)/%: $(V)/%.o $(V)/libzck.a
+	$(CXX) $(VCOV) $< $(V)/libzck.a $(LDLIBS) $(EXTRA_LDFLAGS_$*) -lpthread -o $@
+$(V)/tools/%.o: $(TOOLSRC)/%.c $(B)/include/zck.h
+	@mkdir -p $(dir $@)
+	$(CC) $(VCFLAGS) -c $< -o $@
+$(V)/tools/zckdl: $(V)/tools/zck_dl.o $(V)/tools/util_common.o $(V)/libzck.a
+	$(CC) $(VCOV) $^ $(LDLIBS) -lcurl -o $@
+$(V)/tools/%: $(V)/tools/%.o $(V)/tools/util_common.o $(V)/libzck.a
+	$(CC) $(VCOV) $^ $(LDLIBS) -o $@
+
 -include $(AOBJ:.o=.d) $(POBJ:.o=.d) $(TOBJ:.o=.d)
